@@ -345,7 +345,7 @@ pub struct UfTable { n: usize, e: [UfEntry; UF_CAP] }
 pub static mut UF: UfTable = UfTable { n: 0, e: [UfEntry { used: false, k0: 0, k1: 0, k2: 0, k3: 0, r: 0 }; UF_CAP] };
 
 /// Defines a model with capacity `$cap` seeds: `$seed`, `$look` and the four scalar stubs built on `$look`.
-/// (Three capacities only to keep the small harnesses fast.) The scans destructure the table with an
+/// (Several capacities only to keep the small harnesses fast.) The scans destructure the table with an
 /// irrefutable array pattern, so they are loop-free and index-free.
 macro_rules! uf_family {
     ($seed:ident, $look:ident, $inv:ident, $abs:ident, $rel:ident, $ulps:ident, cap $cap:literal, slots($($e:ident)+)) => {
@@ -357,7 +357,7 @@ macro_rules! uf_family {
                 {
                     // every earlier seed with bit-identical arguments holds the same value (by induction), so
                     // the scan order is irrelevant
-                    let [$($e),+, ..] = &UF.e;
+                    let [$($e),+, ..] = UF.e; // by-value copy: no pointer dereferences in the scan
                     $( if $e.used && $e.k0 == k0 && $e.k1 == k1 && $e.k2 == k2 && $e.k3 == k3 { res = $e.r; } )+
                 }
                 UF.e[n] = UfEntry { used: true, k0, k1, k2, k3, r: res };
@@ -367,7 +367,7 @@ macro_rules! uf_family {
         pub fn $look(k0: u32, k1: u32, k2: u32, k3: u32) -> u32 {
             unsafe {
                 let mut res: u32 = kani::any();
-                let [$($e),+, ..] = &UF.e;
+                let [$($e),+, ..] = UF.e; // by-value copy: no pointer dereferences in the scan
                 $( if $e.used && $e.k0 == k0 && $e.k1 == k1 && $e.k2 == k2 && $e.k3 == k3 { res = $e.r; } )+
                 res
             }
@@ -380,6 +380,7 @@ macro_rules! uf_family {
 }
 uf_family! {uf4_seed, uf4_look, uf4_f32_inv, uf4_f32_abs_diff_eq, uf4_f32_relative_eq, uf4_f32_ulps_eq, cap 4, slots(e0 e1 e2 e3)}
 uf_family! {uf16_seed, uf16_look, uf16_f32_inv, uf16_f32_abs_diff_eq, uf16_f32_relative_eq, uf16_f32_ulps_eq, cap 16, slots(e0 e1 e2 e3 e4 e5 e6 e7 e8 e9 e10 e11 e12 e13 e14 e15)}
+uf_family! {uf32_seed, uf32_look, uf32_f32_inv, uf32_f32_abs_diff_eq, uf32_f32_relative_eq, uf32_f32_ulps_eq, cap 32, slots(e0 e1 e2 e3 e4 e5 e6 e7 e8 e9 e10 e11 e12 e13 e14 e15 e16 e17 e18 e19 e20 e21 e22 e23 e24 e25 e26 e27 e28 e29 e30 e31)}
 uf_family! {uf64_seed, uf64_look, uf64_f32_inv, uf64_f32_abs_diff_eq, uf64_f32_relative_eq, uf64_f32_ulps_eq, cap 64, slots(e0 e1 e2 e3 e4 e5 e6 e7 e8 e9 e10 e11 e12 e13 e14 e15 e16 e17 e18 e19 e20 e21 e22 e23 e24 e25 e26 e27 e28 e29 e30 e31 e32 e33 e34 e35 e36 e37 e38 e39 e40 e41 e42 e43 e44 e45 e46 e47 e48 e49 e50 e51 e52 e53 e54 e55 e56 e57 e58 e59 e60 e61 e62 e63)}
 
 /// Inv::inv on a float vector against the uninterpreted scalar inv.
